@@ -39,7 +39,7 @@ def _statmech(spec, comp, descriptor, refs=None):
     """A real StatMech species: ground-state electronic energy + harmonic vibrations
     (+ translation for 'gas' species)."""
     from pmutt.statmech import StatMech, elec, vib, trans
-    kw = dict(name=spec.get('name', 'sp'), elec_model=elec.GroundStateElec,
+    kw = dict(name=spec.get('name') or 'sp', elec_model=elec.GroundStateElec,
               potentialenergy=spec['E'], spin=0.)
     if spec.get('wn'):
         kw.update(vib_model=vib.HarmonicVib, vib_wavenumbers=list(spec['wn']))
@@ -60,7 +60,7 @@ def _reference(spec, descriptor):
     the experimental value is placed d below the model value; spec['exp']: given."""
     from pmutt.empirical.references import Reference
     from pmutt.statmech import StatMech, elec, vib, trans
-    kw = dict(name=spec['name'], T_ref=spec['T'], HoRT_ref=0., model=StatMech,
+    kw = dict(name=spec.get('name'), T_ref=spec['T'], HoRT_ref=0., model=StatMech,
               elec_model=elec.GroundStateElec, potentialenergy=spec['E'], spin=0.)
     if spec.get('wn'):
         kw.update(vib_model=vib.HarmonicVib, vib_wavenumbers=list(spec['wn']))
@@ -71,6 +71,7 @@ def _reference(spec, descriptor):
     ref = Reference(**kw)
     if descriptor != 'elements':
         setattr(ref, descriptor, dict(spec['comp']))
+    ref._c10_uid = spec.get('uid')
     if 'exp' in spec:
         ref.HoRT_ref = float(spec['exp'])
     else:
@@ -103,22 +104,26 @@ def _d2(v):
     return to_dec2(v)
 
 
-def _state_event(ev, R, mirror, descriptor):
+def _state_event(ev, R, mirror, descriptor, mobjs):
     """Projection of the References object after a call.  `mirror` is the driver's own list
-    of the reference specs that should now be in the object."""
+    of the reference specs that should now be in the object, `mobjs` the Reference objects
+    built from them (names may be None or repeated, so the list is compared by identity)."""
     mism = []
     desc = sorted({k for s in mirror for k in s['comp']})
     A = [[int(s['comp'].get(k, 0)) for k in desc] for s in mirror]
-    names = [r.name for r in R]
-    if names != [s['name'] for s in mirror]:
-        mism.append({'clause': 'ListEdit', 'expected': [s['name'] for s in mirror], 'got': names})
+    held = list(R)
+    if len(held) != len(mobjs) or any(a is not b for a, b in zip(held, mobjs)):
+        mism.append({'clause': 'ListEdit', 'expected': [s['uid'] for s in mirror],
+                     'got': [getattr(r, '_c10_uid', '?') for r in held]})
     real_desc = list(R.get_descriptors())
     real_A = [[float(v) for v in row] for row in R.get_descriptors_matrix().tolist()]
     if real_desc != desc or real_A != [[float(v) for v in row] for row in A]:
         mism.append({'clause': 'DescriptorMatrix', 'expected': [desc, A], 'got': [real_desc, real_A]})
     keys = sorted(R.offset.keys())
     e = {'ev': ev, 'A': A, 'desc': desc, 'keys': keys,
+         'names': ['' if r.name is None else str(r.name) for r in R],
          'off': [_d(R.offset[k]) for k in keys], 'Tref': _d(R.T_ref),
+         # each reference's OWN model enthalpy, evaluated here directly from its species
          'dft': [_d(r.model.get_HoRT(T=r.T_ref)) for r in R],
          'exp': [_d(r.HoRT_ref) for r in R], 'Ti': [_d(r.T_ref) for r in R],
          # off . x_i as the object evaluates it (double precision witness of the fitted values)
@@ -197,6 +202,7 @@ def execute(case):
     events, mism = [], []
     R = None
     mirror = []
+    mobjs = []
     targets = []
     lin = None
     Ts = case['T']
@@ -207,8 +213,8 @@ def execute(case):
             try:
                 if act == 'construct':
                     mirror = list(op['refs'])
-                    R = References(references=[_reference(s, descriptor) for s in mirror],
-                                   descriptor=descriptor)
+                    mobjs = [_reference(s, descriptor) for s in mirror]
+                    R = References(references=list(mobjs), descriptor=descriptor)
                     # species that share the References object for the whole history
                     for t in case['targets']:
                         targets.append({'comp': t['comp'],
@@ -222,21 +228,26 @@ def execute(case):
                 elif act == 'append':
                     new_ref = _reference(op['refs'][0], descriptor)
                     mirror.append(op['refs'][0])
+                    mobjs.append(new_ref)
                     R.append(new_ref)
                 elif act == 'extend':
                     new_refs = [_reference(s, descriptor) for s in op['refs']]
                     mirror.extend(op['refs'])
+                    mobjs.extend(new_refs)
                     R.extend(new_refs)
                 elif act == 'insert':
                     new_ref = _reference(op['refs'][0], descriptor)
                     mirror.insert(op['i'], op['refs'][0])
+                    mobjs.insert(op['i'], new_ref)
                     R.insert(op['i'], new_ref)
                 elif act == 'pop':
                     if op.get('default'):
                         mirror.pop()
+                        mobjs.pop()
                         R.pop()
                     else:
                         mirror.pop(op['i'])
+                        mobjs.pop(op['i'])
                         R.pop(op['i'])
                 elif act == 'fit':
                     R.fit_HoRT_offset()
@@ -249,7 +260,7 @@ def execute(case):
                              'raised': '%s: %s' % (type(ex).__name__, ex)})
                 break
             try:
-                ev, mm = _state_event(act, R, mirror, descriptor)
+                ev, mm = _state_event(act, R, mirror, descriptor, mobjs)
                 for m in mm:
                     m['step'] = k
                 mism.extend(mm)
@@ -284,7 +295,7 @@ def _safe_execute(case):
 # ----------------------------------------------------------------------------- cases
 def _grid_refspec(r, idx, rnd):
     comp = {GRID_NAMES[j]: int(v) for j, v in enumerate(r['x']) if v}
-    return {'name': 'r%d' % idx, 'comp': comp, 'E': -2.0 - 1.5 * sum(r['x']) - 0.25 * idx,
+    return {'uid': 'r%d' % idx, 'name': None if not r.get('nm') else 'sp%d' % r['nm'], 'comp': comp, 'E': -2.0 - 1.5 * sum(r['x']) - 0.25 * idx,
             'wn': [1200.0 + 100.0 * idx, 3000.0], 'T': float(r['t']), 'd': int(r['d'])}
 
 
@@ -326,7 +337,25 @@ def _rand_comp(rnd, names, dens=0.6, hi=4):
             return comp
 
 
+def _assign_names(rnd, ops):
+    """Reference names: the default None for all, two names shared by all, a mix of None /
+    repeated / unique names, or unique names."""
+    mode = rnd.choice(['none', 'dup', 'mixed', 'mixed', 'unique'])
+    for o in ops:
+        for sp in o.get('refs', []):
+            if mode == 'none':
+                sp['name'] = None
+            elif mode == 'dup':
+                sp['name'] = rnd.choice(['H2O', 'ref'])
+            elif mode == 'mixed':
+                sp['name'] = rnd.choice([None, None, 'H2O', sp['uid']])
+            else:
+                sp['name'] = sp['uid']
+    return mode
+
+
 def _finish_case(rnd, cid, descriptor, names, ops, shape, tmode, T0):
+    naming = _assign_names(rnd, ops)
     absent = ABSENT[descriptor]
     targets = []
     for i in range(2):
@@ -348,11 +377,12 @@ def _finish_case(rnd, cid, descriptor, names, ops, shape, tmode, T0):
     T1 = rnd.choice([rnd.uniform(100.0, 2000.0), T0])
     T2 = rnd.uniform(100.0, 2000.0)
     return {'cid': cid, 'kind': 'real', 'descriptor': descriptor, 'names': names, 'ops': ops,
-            'targets': targets, 'lin': lin, 'T': [T1, T2], 'shape': shape, 'tmode': tmode}
+            'targets': targets, 'lin': lin, 'T': [T1, T2], 'shape': shape, 'tmode': tmode,
+            'naming': naming}
 
 
 def _refspec(rnd, i, comp, T, exp=None):
-    spec = {'name': 'ref%d' % i, 'comp': comp, 'E': rnd.uniform(-40.0, -1.0),
+    spec = {'uid': 'ref%d' % i, 'name': 'ref%d' % i, 'comp': comp, 'E': rnd.uniform(-40.0, -1.0),
             'wn': [rnd.uniform(150.0, 3900.0) for _ in range(rnd.randint(0, 4))],
             'T': T, 'exp': rnd.uniform(-400.0, 150.0) if exp is None else exp}
     if rnd.random() < 0.3:
@@ -438,7 +468,7 @@ def _random_case(rnd, cid):
             T = T0 * (1.0 + rnd.uniform(-2e-7, 2e-7))
         else:
             T = T0 + rnd.uniform(-1.5, 1.5)
-        spec = {'name': 'ref%d' % i, 'comp': comp, 'E': rnd.uniform(-40.0, -1.0),
+        spec = {'uid': 'ref%d' % i, 'name': 'ref%d' % i, 'comp': comp, 'E': rnd.uniform(-40.0, -1.0),
                 'wn': [rnd.uniform(150.0, 3900.0) for _ in range(rnd.randint(0, 4))],
                 'T': T, 'exp': rnd.uniform(-400.0, 150.0)}
         if rnd.random() < 0.3:
@@ -498,7 +528,8 @@ def run(ctx):
         'cases are complete TLC behaviours of References.tla (state equality on rational projections after '
         'each call), real cases are random real-valued histories (1-8 references over 1-5 descriptors, '
         'elements or groups, equal / close / spread T_ref, dependent rows, tied columns, under- and '
-        'over-determined, square rank-deficient with a row that is an integer combination of two others); every case is judged line by line by Trace_References.tla; non-trivial = at '
+        'over-determined, square rank-deficient with a row that is an integer combination of two others; '
+        'reference names None / repeated / unique); every case is judged line by line by Trace_References.tla; non-trivial = at '
         'least one fit of >= 2 references or one edit; distinct by the operation sequence')
     if ctx.replay_case is not None:
         cases = [ctx.replay_case['case']]
@@ -530,6 +561,12 @@ def run(ctx):
                                           + bad.out[-1500:])
             ctx.notes.append('design model: the "square fast path" variant (direct solve of square systems, '
                              'singularity unnoticed) is rejected on square rank-deficient sets, as expected')
+            bad = ctx.model('MC_References', 'MC_References_dftcache', expect_ok=False)
+            if bad.ok or bad.violated != 'NormalEquations':
+                raise core.MachineryError('MC_References_dftcache should be rejected with NormalEquations:\n'
+                                          + bad.out[-1500:])
+            ctx.notes.append('design model: the "cached model enthalpies keyed by (name, T_ref)" variant is '
+                             'rejected on a refit with two references sharing a key, as expected')
             ctx.notes.append('design model: append/extend/insert/pop leave offset and T_ref stale until '
                              'fit_HoRT_offset() (AlwaysFresh rejected for the code-shaped variant, as expected)')
             behs = fut.result()
@@ -578,7 +615,8 @@ def run(ctx):
     # vacuity indicators (discrete facts only; the rank flags of grid cases were computed by TLC)
     cnt = {'grid_fits_rows_independent': 0, 'grid_fits_rows_dependent': 0, 'stale_states': 0,
            'refitted_states': 0, 'evals_with_absent_descriptor': 0, 'repro_events': 0,
-           'fits_with_unequal_T_ref': 0, 'square_rank_deficient_fits': 0}
+           'fits_with_unequal_T_ref': 0, 'square_rank_deficient_fits': 0,
+           'refits_with_shared_name_and_T_ref': 0}
     for case, (events, _) in zip(cases, results):
         for o in case['ops']:
             if 'det' in o and o.get('isfresh'):
@@ -596,6 +634,10 @@ def run(ctx):
             if e['ev'] in ('append', 'extend', 'insert', 'pop'):
                 same = prev is not None and (e['keys'], e['off'], e['Tref']) == prev
                 cnt['stale_states' if same else 'refitted_states'] += 1
+            if e['ev'] == 'fit':                      # a second or later fit of the same object
+                ks = [(nm, tuple(t)) for nm, t in zip(e['names'], e['Ti'])]
+                if len(set(ks)) < len(ks):
+                    cnt['refits_with_shared_name_and_T_ref'] += 1
             if e['ev'] in ('construct', 'fit') and len({tuple(t) for t in e['Ti']}) > 1:
                 cnt['fits_with_unequal_T_ref'] += 1
             if e['ev'] in ('construct', 'fit', 'append', 'extend', 'insert', 'pop'):
